@@ -180,7 +180,7 @@ def mk_end_to_end(kind, ti, syntax, lmax):
                     return 'skip'
             elif len(t) != 0:
                 return 'skip'
-            recs, fields = [], []
+            recs, fields, raw = [], [], []
 
             nlbase = NLX + BASES[bs]
 
@@ -188,6 +188,8 @@ def mk_end_to_end(kind, ti, syntax, lmax):
                 with untraced():
                     conc = type(s) is str
                 is_nl = conc and s == nlbase      # payloads never contain the sentinel, symbolic pieces are payload
+                if conc and not is_nl and ('\n' in s or '\r' in s):
+                    raw.append(s)                 # a line break that did not go through output.newline: line/column lose track of it
                 recs.append((offset, line, column, s, is_nl))
                 return s
 
@@ -214,6 +216,8 @@ def mk_end_to_end(kind, ti, syntax, lmax):
             res = check_records(result, recs, NLX, BASES[bs])
             if res is not True:
                 return res
+            if raw:
+                return 'line_break_bypasses_output_newline_so_line_and_column_are_off'
             if kind == 'markup':
                 if len(set(fields)) != len(fields):
                     return 'tabstop_numbers_collide'
